@@ -54,7 +54,7 @@ pub struct Case {
     /// a second failure later in the stream (checks "first")
     pub second: Option<Fault>,
     pub container: Container,
-    /// number of -v flags (0 = default verbosity, 3 = -q); the skip accounting must not depend on it
+    /// number of -v flags (0 = default verbosity, 3 = -q, 4 = -qq); the skip accounting must not depend on it
     #[serde(default)]
     pub verbosity: u8,
     /// L2: the sample list is passed through a samples file (-S) instead of -s
@@ -98,6 +98,7 @@ fn inject_l1(cs: &CallSet, cfg: &Config, items: &mut Vec<Item>, fault: Fault, i:
                 Item::SourceError {
                     contig: format!("chr{}", cs.recs[i].contig + 1),
                     pos: cs.recs[i].pos as usize,
+                    kind: (i % 5) as u8,
                 },
             );
             Some(())
@@ -247,7 +248,7 @@ impl Prop for C10 {
             positions,
             second,
             container,
-            verbosity: if l2 { *rng.pick(&[0u8, 0, 1, 2, 3]) } else { *rng.pick(&[0u8, 0, 1, 2]) },
+            verbosity: if l2 { *rng.pick(&[0u8, 0, 1, 2, 3, 4]) } else { *rng.pick(&[0u8, 0, 1, 2]) },
             samples_file: l2 && rng.chance(1, 3),
         }
     }
@@ -696,6 +697,8 @@ fn l2_create(ctx: &mut Ctx, cfg: &Config, bytes: &[u8], plan: Option<Plan>, verb
     }
     if verbose == 3 {
         args.push("-q".into());
+    } else if verbose == 4 {
+        args.push("-qq".into());
     } else {
         for _ in 0..verbose {
             args.push("-v".into());
@@ -816,7 +819,7 @@ fn run_l2_at(case: &Case, i: usize, ctx: &mut Ctx, out: &mut Outcome) {
                     "C10 L2 ploidy error in a selected sample but exit 0".into(),
                     detail(),
                 );
-            } else if !stderr.contains(&site_name(cs, i)) && !stderr.contains("strict mode") {
+            } else if case.verbosity < 4 && !stderr.contains(&site_name(cs, i)) && !stderr.contains("strict mode") {
                 out.violate(
                     "failure_not_first_or_unnamed",
                     "C10 L2 ploidy error: message does not name the site".into(),
@@ -833,7 +836,7 @@ fn run_l2_at(case: &Case, i: usize, ctx: &mut Ctx, out: &mut Outcome) {
                 );
             }
         }
-        Fault::None | Fault::PloidyUnselected | Fault::StrictViolation if case.verbosity == 3 => {
+        Fault::None | Fault::PloidyUnselected | Fault::StrictViolation if case.verbosity >= 3 => {
             // -q: nothing is reported on stderr, so neither the conservation law nor "first skipped
             // site" can be read off; the all-or-nothing clauses above were applied
             out.count("l2.quiet_runs", 1);
